@@ -144,7 +144,23 @@ def build(prop, o, workdir):
     # bounds to every copy
     rc, out, _ = sh(["goto-instrument", "--show-loops", gb], timeout=120)
     allloops = re.findall(r"^Loop (\S+):", out, re.M)
+    loopinfo = re.findall(r"^Loop (\S+):\n\s+file (\S+) line (\d+) function (\S+)", out, re.M)
+    def srcline(f, n):
+        try:
+            return open(f).read().splitlines()[int(n) - 1]
+        except Exception:
+            return ""
     def expand(spec):
+        if "@" in spec:
+            # "function@regex[:bound]": every loop of that function whose source line matches the regex (robust against renumbering)
+            fn, rx = spec.split("@", 1)
+            rest = ""
+            m = re.search(r":(\d+)$", rx)
+            if m:
+                rest = ":" + m.group(1); rx = rx[:m.start()]
+            hits = [l + rest for (l, f, n, func) in loopinfo if (func == fn or func.startswith(fn + "$link")) and re.search(rx, srcline(f, n))]
+            return hits or [fn + ".0" + rest]
+
         base = spec.split(":")[0]; rest = spec[len(base):]
         fn, idx = base.rsplit(".", 1)
         return [l + rest for l in allloops if l == base or (l.startswith(fn + "$link") and l.endswith("." + idx))] or [spec]
